@@ -30,7 +30,7 @@ enum { P_IRQ_IN_SCHEDULER, P_IRQ_IN_RUN, P_IRQ_IN_KILL, P_IRQ_IN_BODY, P_IRQ_BET
        P_IRQ_AFTER_FINAL_CHECK, P_IRQ_BEFORE_FINAL_CHECK, P_PROBE_PASS, P_PROBE_PASS_DISPATCHED,
        P_SEND_REFUSED_WAKEUP, P_EVENT_WHILE_HANDLER_RUNNING, P_OBLIGATION_DISCHARGED, P_KILL_RACED_REQUEST,
        P_QUIESCED, P_QUEUE_HEALTH_CHECKED, P_TIMER_FIRED, P_MODE_IRQ, P_MODE_THR, P_OVERSLEEP_CHECKED,
-       P_NESTED_SENDS_OVERLAP };
+       P_NESTED_SENDS_OVERLAP, P_THR_QUIET_SLEEP_VERDICT };
 static const char *const probe_names[] = {
 	"interrupt_inside_fibre_scheduler_next", "interrupt_inside_fibre_run", "interrupt_inside_fibre_kill",
 	"interrupt_inside_fibre_body", "interrupt_between_passes", "request_published_after_final_check",
@@ -38,7 +38,8 @@ static const char *const probe_names[] = {
 	"probe_pass_dispatched_excused", "event_send_refused_by_full_wakeup_queue",
 	"event_sent_while_handler_running", "wakeup_obligation_discharged", "kill_overlapped_request",
 	"system_quiesced", "queue_health_checked", "timer_fired", "mode_irq", "mode_threads",
-	"sleep_verdict_checked_against_timers", "nested_event_sends_overlapped", NULL };
+	"sleep_verdict_checked_against_timers", "nested_event_sends_overlapped",
+	"thread_mode_sleep_verdict_with_no_sender_active", NULL };
 
 #define NFIB 5
 enum { FE, FY, FS, FW1, FW2 };
@@ -213,6 +214,8 @@ static int waiting_fibre(fibre_t *f)
 
 /* ---- interrupt-context actions --------------------------------------------- */
 
+static uint32_t ctx_calls_in_flight, ctx_calls_started;	/* interrupt-context calls, any kind */
+
 static void note_where(void)
 {
 	if (in_body >= 0)
@@ -246,6 +249,8 @@ static void ctx_run_atomic(int x)
 {
 	uint32_t a0 = simrt_alog_len();
 	uint32_t kf = B[x].kills_finished;
+	ctx_calls_in_flight++;
+	ctx_calls_started++;
 	sim_ev("atomic.inv", x, 0, 0);
 	bool ok = fibre_run_atomic(fib[x]);
 	ev++;
@@ -262,6 +267,7 @@ static void ctx_run_atomic(int x)
 	} else {
 		sim_fault(F_WAKEUP_QUEUE_FULL);
 	}
+	ctx_calls_in_flight--;
 }
 
 static int sends_in_flight;
@@ -271,6 +277,8 @@ static void ctx_send_event(void)
 	if (n_events >= MAXEV)
 		return;
 	uint64_t inv = ++ev;
+	ctx_calls_in_flight++;
+	ctx_calls_started++;
 	sim_ev("evclaim.inv", 0, 0, 0);
 	if (sends_in_flight)
 		sim_probe(P_NESTED_SENDS_OVERLAP);
@@ -279,6 +287,7 @@ static void ctx_send_event(void)
 	sim_ops(1);
 	if (!p) {
 		sends_in_flight--;
+		ctx_calls_in_flight--;
 		sim_fault(F_EVENT_QUEUE_FULL);
 		sim_ev("evclaim.ret", -1, 0, 0);
 		return;
@@ -310,6 +319,7 @@ static void ctx_send_event(void)
 		sim_fault(F_WAKEUP_QUEUE_FULL);
 		sim_probe(P_SEND_REFUSED_WAKEUP);
 	}
+	ctx_calls_in_flight--;
 }
 
 static void ctx_action(void)
@@ -359,6 +369,7 @@ static pass_t do_pass(void)
 	dispatch_count_in_pass = 0;
 	r.start_seq = simrt_points();
 	r.start_ev = ev;
+	uint32_t started0 = ctx_calls_started, inflight0 = ctx_calls_in_flight;
 	in_call_sched = true;
 	sim_ev("pass", (int32_t)now, 0, 0);
 	r.wake = fibre_scheduler_next(now);
@@ -382,9 +393,13 @@ static pass_t do_pass(void)
 	/* Black-box form of "never oversleeps / never lost": a request that had been accepted
 	 * before this call even began is, on return, either dispatched, or still queued - and
 	 * then the scheduler must not tell the main loop to sleep.  (Not applied to free-running
-	 * threads, where a sender stalled between claim and send legitimately hides later
-	 * requests from the scheduler's emptiness test.) */
-	if (mode == SIMRT_IRQ && r.wake != now)
+	 * threads while any sender is inside an interrupt-context call: a sender stalled between
+	 * claim and send legitimately hides later requests from the scheduler's emptiness test.
+	 * It IS applied to a pass during which no such call was in flight or began.) */
+	bool quiet_pass = inflight0 == 0 && ctx_calls_started == started0;	/* threads: no sender active at all */
+	if (mode == SIMRT_THR && quiet_pass && r.wake != now)
+		sim_probe(P_THR_QUIET_SLEEP_VERDICT);
+	if ((mode == SIMRT_IRQ || quiet_pass) && r.wake != now)
 		for (int x = 0; x < nfib; x++)
 			if (B[x].oblig && B[x].oblig <= r.start_ev)
 				sim_fail(sim_prop_is("C03") ? "C03" : "C06",
@@ -542,6 +557,7 @@ static void run(void)
 	ev = 0;
 	pub_addr = 0;
 	sends_in_flight = 0;
+	ctx_calls_in_flight = ctx_calls_started = 0;
 	senders_done = 0;
 	nsenders = 0;
 
